@@ -14,6 +14,7 @@ from __future__ import annotations
 import dataclasses
 import itertools
 from dataclasses import dataclass, field
+from typing import Sequence
 
 from .. import boot  # noqa: F401
 from pyoak.node import NODE_REGISTRY, ASTNode
@@ -39,6 +40,7 @@ class DL(ASTNode):
     v: int = 0
     nc: int = field(default=0, compare=False)
     ni: int = field(default=7, init=False)
+    tags: Sequence[str] = ()   # a PROPERTY of a collection type: whatever object is given for it is what the new node holds
 
     def __post_init__(self) -> None:
         ASTNode.__post_init__(self)   # the model validates itself AFTER the base initialisation: a rejected replace fails late
@@ -65,7 +67,8 @@ class DP(ASTNode):
 
 
 U = Universe("c14", [
-    C("DL", DL, [F("v", PROP, alphabet=(0, 1)), F("nc", PROP, alphabet=(0,), compare=False), F("ni", PROP, init=False, default=7)]),
+    C("DL", DL, [F("v", PROP, alphabet=(0, 1)), F("nc", PROP, alphabet=(0,), compare=False), F("ni", PROP, init=False, default=7),
+                 F("tags", PROP, alphabet=((),))]),
     C("DP", DP, [F("one", OPT), F("items", VAR, maxlen=3), F("changes", PROP, alphabet=(0,))]),
 ])
 # "survived-rejected-replace": every node of the tree has been the receiver of a replace() that its model rejected late (the
@@ -133,7 +136,7 @@ def origins_for(kind):
 def changes_for(node, fresh):
     """Single changes of init fields: (name, {field: value})."""
     if isinstance(node, DL):
-        ch = [("v", {"v": node.v + 2}), ("nc", {"nc": 5}), ("origin", {"origin": zoo.O_B01})]
+        ch = [("v", {"v": node.v + 2}), ("nc", {"nc": 5}), ("origin", {"origin": zoo.O_B01}), ("tags-list", {"tags": ["x", "y"]})]
     else:
         leaf = fresh()
         ch = [("changes", {"changes": 1}), ("one-none" if node.one is not None else "one-set", {"one": None if node.one is not None else leaf}),
